@@ -593,6 +593,9 @@ def render(f):
         f'def pmFinallySetsClosedUS : Bool := {_b(pu["finally_sets_closed"] and pu["awaits_session"])}\n'
         f'def pmCatchesRS : List String := {_strs(ps["catches"])}\n'
         f'def pmCatchesUS : List String := {_strs(pu["catches"])}\n'
+        '/-- the `_closed_event` flags of the four `process_messages` runs -/\n'
+        f'def pmClosedRS : List Bool := [{", ".join(_b(r["closed_event"]) for r in f["pm_rs"])}]\n'
+        f'def pmClosedUS : List Bool := [{", ".join(_b(r["closed_event"]) for r in f["pm_us"])}]\n'
         '/-- AST: close() = transport.close(); try: async with timeout_after(force_after): await\n'
         '    _closed_event.wait(); except TaskTimeout: abort; await _closed_event.wait() -/\n'
         f'def closeShapeRS : Bool := {_b(cs["closes_transport"] and cs["bounded_wait"] and cs["timeout_arg"] == "force_after" and cs["on_timeout_aborts"] and cs["on_timeout_waits_again"] and cs["catches"] == ["TaskTimeout"])}\n'
